@@ -127,6 +127,38 @@ Theorem tamper_any_bit_interest : forall (sha256 : bytes -> bytes), (forall x, l
 Proof. exact tamper_any_bit_interest_thm. Qed.
 Print Assumptions tamper_any_bit_interest.
 
+(* ... hence rejected.  Hypothesis used, stated exactly: for the quantified signer the validator's check accepts no pair
+   other than the one that was signed —  forall m s, chk m s = true -> m = covered bytes handed to the signer /\ s = the
+   signature it returned  (ideal unforgeability; collision-freedom of the hash and of the signature scheme are instances).
+   Then a packet with one flipped bit (any T, L or V octet of the signed portion or of the signature element) that still
+   decodes is rejected by chk. *)
+Theorem tamper_any_bit_data_rejected : forall (chk : bytes -> bytes -> bool) sign nm cfg content sg si est e sv,
+  data_siginfo sg = Ok (si, est) -> name_ok nm -> meta_wf (meta_of cfg) -> signer_ok sg -> data_fits nm cfg content si est ->
+  0 < est -> make_data sign nm cfg content sg = Ok e -> sign (e_cov e) = Some sv ->
+  (forall m s, chk m s = true -> m = concat (e_cov e) /\ s = sv) ->
+  forall i, (value_offset (concat (e_wire e)) <= i / 8 < length (concat (e_wire e)))%nat ->
+  forall r, View r (flip_bit (concat (e_wire e)) i) 0 ->
+  forall d' cov', read_data r = ROk d' cov' ->
+    match do_sv (obs_data d') with Some s' => chk (concat cov') s' = false | None => True end.
+Proof. exact tamper_any_bit_data_rejected_thm. Qed.
+Print Assumptions tamper_any_bit_data_rejected.
+Theorem tamper_any_bit_interest_rejected : forall (chk : bytes -> bytes -> bool) (sha256 : bytes -> bytes), (forall x, length (sha256 x) = 32%nat) ->
+  forall sign nm cfg a sg si est e sv,
+  let pre := strip_digest nm in
+  int_siginfo sg true = Ok (si, est) -> 0 < est -> name_ok pre ->
+  iconfig_ok cfg -> signer_ok sg -> signer_int_ok sg -> int_fits (pre ++ [mkc 2 zeros32]) cfg (Some a) si est ->
+  make_interest sha256 sign nm cfg (Some a) sg = Ok e -> sign (e_cov e) = Some sv ->
+  (forall m s, chk m s = true -> m = concat (e_cov e) /\ s = sv) ->
+  let W := concat (e_wire e) in
+  let s1 := (value_offset W + value_offset (skipn (value_offset W) W))%nat in
+  let tail := enc_elems (int_tail_elems (Some (concat a)) si (Some sv)) in
+  forall i, (s1 <= i / 8 < s1 + length (name_inner pre))%nat \/ (length W - length tail <= i / 8 < length W)%nat ->
+  forall r, View r (flip_bit W i) 0 ->
+  forall i' cov', read_interest sha256 r = ROk i' cov' ->
+    match io_sv (obs_int i') with Some s' => chk (concat cov') s' = false | None => True end.
+Proof. exact tamper_any_bit_interest_rejected_thm. Qed.
+Print Assumptions tamper_any_bit_interest_rejected.
+
 (* Tampering, well-formed modifications (Data).  Every modification that leaves a well-formed Data with different name /
    MetaInfo / content / SignatureInfo / signature value is decoded to a (covered bytes, signature value) pair different from
    the signed one. *)
